@@ -420,6 +420,10 @@ def plan(ctx):
     for name, D in (("NavierStokesVorticity", 2), ("KolmogorovFlowVorticity", 2), ("Burgers", 1), ("NavierStokesVelocity", 3)) if not deep else \
             (("NavierStokesVorticity", 2), ("KolmogorovFlowVorticity", 2), ("Burgers", 1), ("NavierStokesVelocity", 3), ("KuramotoSivashinsky", 2), ("Wave", 2)):
         for Lx in (5e4, 1e-2):
+            if Lx < 1 and name in ("KuramotoSivashinsky", "Wave"):
+                # on a tiny domain these two are ill conditioned in ANY precision (phase c |k| dt ~ 1e2 rad for Wave, a gradient-norm term
+                # ~ (2 pi / L)^2 for KS): single-precision rounding is amplified by |lambda dt|, which the bound below does not model
+                continue
             params = dict(cls=name, D=D, N=NS[D] if D < 3 else 8, order=2 if registry.has_order(name) else None, kw=variants(name)[0], dt=0.01, L=Lx, seed=ctx.seed)
             out.append(("precision", params))
     # "round" symbols on a real grid: Burgers on L = 2 pi has integer wavenumbers, nu k^2 dt = 1 exactly for some resolved k
